@@ -286,6 +286,43 @@ fn check_type(ty: SignType, name: &str, expect: Option<(u8, u8, u32, u32)>, rep:
             }
         }
     }
+    // ... and through the controller: a sign that some controller has configured as ANOTHER type (and left there: no
+    // pages, no reset) is then configured by a controller of this type — what it records and stores is this type's
+    if block.len() == 16 {
+        use std::cell::RefCell;
+        use std::rc::Rc;
+        let own = 0x0024u16;
+        let ti = TYPES.iter().position(|t| t.ty == ty).unwrap();
+        for (oi, other) in TYPES.iter().enumerate() {
+            if other.ty == ty {
+                continue;
+            }
+            for with_pages in [false, true] {
+                let bus = Rc::new(RefCell::new(flipdot_testing::VirtualSignBus::new(vec![flipdot_testing::VirtualSign::new(flipdot::Address(own), flipdot::PageFlipStyle::Manual)])));
+                let first = crate::ctl::mk_sign(bus.clone(), own, oi);
+                let a = crate::ctl::run_op(&first, &crate::refctl::Op::Configure, &[]);
+                if with_pages {
+                    let p = crate::ctl::page_from_image(other.w, other.h, RefPage::new(1, other.w, other.h).image());
+                    let _ = crate::ctl::run_op(&first, &crate::refctl::Op::SendPages, &[p]);
+                }
+                drop(first);
+                let second = crate::ctl::mk_sign(bus.clone(), own, ti);
+                let b = crate::ctl::run_op(&second, &crate::refctl::Op::Configure, &[]);
+                let img = RefPage::new(2, w, h).image();
+                let c = crate::ctl::run_op(&second, &crate::refctl::Op::SendPages, &[crate::ctl::page_from_image(w, h, img.clone())]);
+                drop(second);
+                rep.count("controller_reconfigurations");
+                let vb = bus.borrow();
+                let s = vb.sign(0);
+                let pages = s.pages();
+                let ok = a.is_ok() && b.is_ok() && c.is_ok() && s.sign_type() == Some(ty) && pages.len() == 1 && pages[0].width() == w && pages[0].height() == h && pages[0].as_bytes() == &img[..];
+                if !ok {
+                    let what = format!("after Sign({}).configure(){} and then Sign({}).configure() + send_pages: results {} / {} / {}; the virtual sign records type {:?} and holds {} page(s){}", other.name, if with_pages { " + send_pages" } else { "" }, name, a.show(), b.show(), c.show(), s.sign_type(), pages.len(), pages.first().map(|p| format!(" of {}x{}", p.width(), p.height())).unwrap_or_default());
+                    rep.violation(MON_T, "virtual_sign_disagrees_after_controller_reconfiguration", &format!("{}<-{}:{}", name, other.name, with_pages), format!("{}: {}", name, what), J::obj(vec![("type", J::s(name)), ("previous_type", J::s(other.name)), ("observed", J::s(what.clone()))]));
+                }
+            }
+        }
+    }
     rep.count("types_checked");
     rep.sample_always(J::obj(vec![("type", J::s(name)), ("block", J::hex(&block)), ("dimensions", J::s(format!("{}x{}", w, h)))]));
 }
@@ -416,6 +453,7 @@ pub fn run(ctx: &Ctx) -> Outcome {
         floor("lengths that are 16 modulo 2^8 / 2^16 / 2^24", report.set_len("long_lengths") == 6, report.set_len("long_lengths")),
         floor("listed pairs accepted and unlisted pairs rejected", report.get("accepted_listed") >= 11 * 8 && report.get("rejected_unlisted") > 500_000, report.get("accepted_listed")),
         floor("recorded type followed through failed / abandoned / completed pixel transfers, for every type", report.get("virtual_sign_type_through_pixel_transfers") == 44 && report.get("virtual_sign_repeat_stored_a_page") >= 22, report.get("virtual_sign_type_through_pixel_transfers")),
+        floor("a sign configured by a controller of every other type, then by a controller of this type (11 x 10 x 2)", report.get("controller_reconfigurations") == 220, report.get("controller_reconfigurations")),
         floor("an unsupported block after a supported one, for every type", report.get("virtual_sign_unsupported_block_after_supported") >= 44, report.get("virtual_sign_unsupported_block_after_supported")),
         floor("virtual sign reconfigured from every other type (11 x 10 x 2 histories)", report.get("virtual_sign_reconfigurations") == 220, report.get("virtual_sign_reconfigurations")),
         floor("virtual sign configured with every type's block", report.get("virtual_sign_configurations") >= 11, report.get("virtual_sign_configurations")),
